@@ -17,7 +17,7 @@ import (
 // ---------------------------------------------------------------------------------------
 // configurations
 
-const unit = uint64(1_000_000)
+const unit = uint64(1) // stakes are the literal small integers so that subset powers hit floor(2T/3) and floor(2T/3)+1 exactly
 
 type cfgSpec struct {
 	Name   string
@@ -260,10 +260,10 @@ func genesisFor(cfg cfgSpec) *fsm.GenesisState {
 	acc := map[int]uint64{}
 	var vals []env.ValSpec
 	for i, s := range cfg.Stakes {
-		acc[i] = 100 * unit
+		acc[i] = 100_000_000
 		vals = append(vals, env.ValSpec{Key: i, Stake: s * unit, OutputKey: -1})
 	}
-	acc[10], acc[11] = 100*unit, 100*unit
+	acc[10], acc[11] = 100_000_000, 100_000_000
 	return env.NewGenesis(acc, vals, nil)
 }
 
